@@ -160,7 +160,7 @@ def gen_sequences(n: int, tier: str) -> Iterator[dict[str, Any]]:
     common.rng_for("C16", "catalogue-order").shuffle(order)
     for k in range(n):
         r = common.rng_for("C16", "seq", k)
-        cache_mode = "plain" if k % 4 == 3 else "fgcache"
+        cache_mode = "plain" if k % 8 == 7 else "fgcache"
         verbose = r.random() < 0.2
         nf = r.choice([1, 1, 2, 2, 3, 4])
         v = list(r.choice(VERSIONS))
@@ -279,10 +279,12 @@ def classify_event(ev: dict[str, Any]) -> list[tuple[str, str]]:
         # did it die while serving the hostile connection, or only on the NEXT (well-formed) one?
         hostile_done = bool(((ev.get("hostile") or {}).get("reply") or {}).get("final"))
         phase = "on-next-connection" if hostile_done and fam == "pipelined" else "on-faulty-connection"
-        out.append((f"daemon-died:{phase}:{site}",
-                    f"daemon process exited after client fault '{label}' ({how_exited(p.get('waitstatus'))}"
-                    + (", the hostile client itself had been answered; bytes it left behind broke the next client's connection)"
-                       if phase == "on-next-connection" else ")")))
+        asked_to_stop = ((ev.get("hostile") or {}).get("request") or {}).get("command") == "stop"
+        if not asked_to_stop:  # a (malformed) stop request may end the daemon; only its status file is judged
+            tail = (", the hostile client itself had been answered; bytes it left behind broke the next client's connection)"
+                    if phase == "on-next-connection" else ")")
+            out.append((f"daemon-died:{phase}:{site}",
+                        f"daemon process exited after client fault '{label}' ({how_exited(p.get('waitstatus'))}{tail}"))
         if p.get("status_file_names_dead_pid"):
             cmd = ((ev.get("hostile") or {}).get("request") or {}).get("command")
             out.append((f"status-file-left:after-death:command={cmd if isinstance(cmd, str) else '-'}:{site}",
@@ -292,12 +294,25 @@ def classify_event(ev: dict[str, Any]) -> list[tuple[str, str]]:
         out.append((f"daemon-unresponsive:{fam}:{classify_probe_text(p.get('barrier_error', ''))}",
                     f"daemon alive but a well-formed status request after '{label}' was not answered: {p.get('barrier_error')!r}"))
         return out
-    if p.get("barrier_reply_error"):
-        out.append((f"later-request-affected:{fam}:status-got-error-reply:{classify_probe_text(p['barrier_reply_error'])}",
-                    f"well-formed status request after '{label}' was answered with an error: {p['barrier_reply_error']!r}"))
-    if p.get("barrier_foreign"):
-        out.append((f"later-request-affected:{fam}:status-got-foreign-response",
-                    f"status request after '{label}' got the response to another request (keys {p.get('barrier_keys')})"))
+    # a well-formed status request that failed although the daemon is alive (even if a retry then succeeded)
+    disturbed = [x for x in (p.get("barrier_reply_error") and "error reply: " + p["barrier_reply_error"],
+                             p.get("barrier_foreign") and f"response to another request (keys {p.get('barrier_keys')})",
+                             p.get("barrier_failures") and "connection-level failure: " + "; ".join(p["barrier_failures"])) if x]
+    if disturbed and fam == "pipelined":
+        # which of the three the next client sees is a race between its send and the server answering the
+        # stale frame and closing: one mechanism, one key
+        out.append(("later-request-affected:pipelined:next-request-disturbed",
+                    f"bytes left behind by '{label}' were taken for the next client's request; its well-formed status request got: {disturbed[0][:200]}"))
+    elif disturbed:
+        if p.get("barrier_reply_error"):
+            out.append((f"later-request-affected:{fam}:status-got-error-reply:{classify_probe_text(p['barrier_reply_error'])}",
+                        f"well-formed status request after '{label}' was answered with an error: {p['barrier_reply_error']!r}"))
+        if p.get("barrier_foreign"):
+            out.append((f"later-request-affected:{fam}:status-got-foreign-response",
+                        f"status request after '{label}' got the response to another request (keys {p.get('barrier_keys')})"))
+        if p.get("barrier_failures"):
+            out.append((f"later-request-affected:{fam}:status-request-failed:{classify_probe_text(p['barrier_failures'][0])}",
+                        f"well-formed status request after '{label}' failed although the daemon stayed alive: {p['barrier_failures'][0]!r}"))
     if p.get("pid_changed"):
         out.append((f"pid-changed:{fam}", f"status file names another pid after '{label}'"))
     st = p.get("status_cmd")
